@@ -36,6 +36,8 @@
 From Coq Require Import NArith ZArith List Lia.
 From Mtbl Require Import model.Bytes model.Order model.Writer spec.Parse model.Reader spec.TableCheck
   proofs.BlockProofs proofs.LookupProofs proofs.ReaderProofs proofs.CheckProofs proofs.LegalTables spec.Encode proofs.EncodeProofs.
+(* source ties: the statements of the C functions the model follows (gen/Ties.v is regenerated from /repo on every run) *)
+From Mtbl Require props.Ties_C11.
 Local Open Scope N_scope.
 
 Theorem T11_legal_tables : forall decompress r ib iridx bl,
